@@ -83,8 +83,11 @@ def assignConsts : CNF.Supply → List Term → List (Term × Sym)
 
 /-- `_terms_dict` of a fresh `Ackermannizer` run on `t` in a manager that knows exactly the
 symbols of `t` -/
-def constTable (t : Term) : List (Term × Sym) :=
-  assignConsts ⟨t.fv.map (·.name), 0⟩ (appsD t)
+def constTableIn (s : CNF.Supply) (t : Term) : List (Term × Sym) := assignConsts s (appsD t)
+
+def constTable (t : Term) : List (Term × Sym) := constTableIn ⟨t.fv.map (·.name), 0⟩ t
+
+def envIn (s : CNF.Supply) (t : Term) : Env := ⟨CNF.lookupKey (constTableIn s t)⟩
 
 def stdEnv (t : Term) : Env := ⟨CNF.lookupKey (constTable t)⟩
 
